@@ -60,6 +60,7 @@ fn main() {
                 i += 1;
                 replay = Some(args.get(i).cloned().unwrap_or_else(|| machinery("--replay needs a file")));
             }
+            _ if prop == "crosscheck" => {}
             other => machinery(&format!("unknown argument {other}")),
         }
         i += 1;
@@ -77,6 +78,35 @@ fn main() {
     install_panic_hook();
     let start = Instant::now();
     selftests();
+    if prop == "crosscheck" {
+        // lines: <algo> <hex input> <hex key or -> <hex expected>   (produced by python3 hashlib/hmac/zlib in setup.sh)
+        let path = args.get(2).cloned().unwrap_or_else(|| machinery("crosscheck needs a corpus file"));
+        let body = std::fs::read_to_string(&path).unwrap_or_else(|e| machinery(&format!("read {path}: {e}")));
+        let mut n = 0;
+        for (ln, line) in body.lines().enumerate() {
+            let f: Vec<&str> = line.split_whitespace().collect();
+            if f.len() != 4 {
+                continue;
+            }
+            let input = if f[1] == "-" { vec![] } else { refimpl::crypto::unhex(f[1]) };
+            let key = if f[2] == "-" { vec![] } else { refimpl::crypto::unhex(f[2]) };
+            let got = match f[0] {
+                "sha1" => refimpl::crypto::hex(&refimpl::crypto::sha1(&input)),
+                "sha256" => refimpl::crypto::hex(&refimpl::crypto::sha256(&input)),
+                "md5" => refimpl::crypto::hex(&refimpl::crypto::md5(&input)),
+                "hmac-sha1" => refimpl::crypto::hex(&refimpl::crypto::hmac_sha1(&key, &input)),
+                "hmac-sha256" => refimpl::crypto::hex(&refimpl::crypto::hmac_sha256(&key, &input)),
+                "crc32" => format!("{:08x}", refimpl::crypto::crc32_fast(&input)),
+                other => machinery(&format!("crosscheck: unknown algorithm {other}")),
+            };
+            if got != f[3] {
+                machinery(&format!("crosscheck line {}: {} differs from python: {} vs {}", ln + 1, f[0], got, f[3]));
+            }
+            n += 1;
+        }
+        println!("crosscheck ok: {n} reference computations agree with python hashlib/hmac/zlib");
+        return;
+    }
     if prop == "selftest" {
         println!("selftest ok ({:.2}s)", start.elapsed().as_secs_f64());
         return;
